@@ -48,8 +48,9 @@ impl Backend {
                     },
                 };
 
-                // Range covers the whole fixture definition line
-                let range = Self::create_point_range(def_line, 0);
+                // Range covers the fixture definition line up to the end of the name, so
+                // that it contains the selection range
+                let range = Self::create_range(def_line, 0, def_line, definition.end_char as u32);
 
                 let item = CallHierarchyItem {
                     name: definition.name.clone(),
@@ -217,16 +218,32 @@ impl Backend {
                         }
                     )),
                     uri: dep_uri,
-                    range: Self::create_point_range(dep_line, 0),
+                    range: Self::create_range(dep_line, 0, dep_line, dep_def.end_char as u32),
                     selection_range: to_range,
                     data: None,
                 };
 
-                // Find where in the fixture the dependency is referenced
-                // (parameter position in the signature)
-                let from_ranges = self
-                    .find_parameter_ranges(&file_path, definition.line, dep_name)
-                    .unwrap_or_else(|| vec![to_range]);
+                // Where the fixture requests the dependency: the usages recorded for this
+                // file inside the definition's own lines (parameters, usefixtures strings)
+                let from_ranges: Vec<Range> = self
+                    .fixture_db
+                    .usages
+                    .get(&file_path)
+                    .map(|usages| {
+                        usages
+                            .iter()
+                            .filter(|u| {
+                                u.name == *dep_name
+                                    && u.line >= definition.line
+                                    && u.line <= definition.end_line.max(definition.line)
+                            })
+                            .map(|u| {
+                                let l = Self::internal_line_to_lsp(u.line);
+                                Self::create_range(l, u.start_char as u32, l, u.end_char as u32)
+                            })
+                            .collect()
+                    })
+                    .unwrap_or_default();
 
                 outgoing_calls.push(CallHierarchyOutgoingCall {
                     to: to_item,
@@ -237,37 +254,5 @@ impl Backend {
 
         info!("Found {} outgoing calls", outgoing_calls.len());
         Ok(Some(outgoing_calls))
-    }
-
-    /// Find the range(s) where a parameter name appears in a function signature.
-    fn find_parameter_ranges(
-        &self,
-        file_path: &std::path::Path,
-        line: usize,
-        param_name: &str,
-    ) -> Option<Vec<Range>> {
-        let content = self.fixture_db.file_cache.get(file_path)?;
-        let lines: Vec<&str> = content.lines().collect();
-
-        // Get the line (0-indexed internally, but definition.line is 1-indexed)
-        let line_content = lines.get(line.saturating_sub(1))?;
-
-        // Find the parameter in the line
-        if let Some(start) = line_content.find(param_name) {
-            let lsp_line = Self::internal_line_to_lsp(line);
-            let range = Range {
-                start: Position {
-                    line: lsp_line,
-                    character: start as u32,
-                },
-                end: Position {
-                    line: lsp_line,
-                    character: (start + param_name.len()) as u32,
-                },
-            };
-            return Some(vec![range]);
-        }
-
-        None
     }
 }
